@@ -17,6 +17,7 @@ RULE = ("(1) prefix consistency: every generated program s1..sn is also run cut 
         "texts; non-trivial = >= 2 statements.")
 RULE += (" " + 'Also: every pairing of the two binding statements (let, constraint) on one name - adjacent, apart, used in between, in module bodies - must fail, the same names in different scopes must build; duplicate parameter names must fail.')
 RULE += (" " + 'Eight scoping templates in which the shadowed outer binding is read by the statement just before the function / callback / format is defined, or inside the same statement.')
+RULE += (" " + '48 / 320 sessions piped into `ucg repl`: binding, closure over it, a rejected rebinding (let, constraint, other type, function), then reads of the name, the closure and a dependent binding.')
 
 INDEX_MD = os.path.join(core.REPO, "docsite/site/content/reference/_index.md")
 
@@ -182,6 +183,39 @@ def scoping_programs(r):
     return out
 
 
+def task_repl(args):
+    """the REPL is the one mode in which evaluation goes on after a rejected rebinding: the binding keeps its value there too.
+    Sessions are piped into `ucg repl`; the value lines it prints are compared with the values the session must show."""
+    seed, idx, count = args
+    r = core.rng_for(seed, "c10repl", idx)
+    res = core.Result()
+    for c in range(count):
+        a, b = r.randint(1, 9), r.randint(10, 19)
+        name = r.choice(["x", "cfg", "v1"])
+        rebinding = r.choice(["let %s = %d;" % (name, b), "constraint %s = %d;" % (name, b), "let %s = \"s\";" % name,
+                              "let %s = func () => %d;" % (name, b)])
+        pad = ["let pad%d = %d;" % (j, j) for j in range(r.randint(0, 2))]
+        lines = ["let %s = %d;" % (name, a), "let f = func () => %s;" % name] + pad + [rebinding, "%s;" % name, "f();", "let y = %s + 100;" % name, "y;"]
+        expect = [str(a), str(a), str(a + 100)]
+        with core.TempProject("c10r") as tp:
+            ev = core.run_cli(["repl"], tp.root, stdin=("\n".join(lines) + "\n").encode("utf-8"), timeout=30.0, merge=True)
+        out = ev["stdout"]
+        witness = {"session": lines}
+        res.case(("repl", tuple(lines)), nontrivial=True)
+        if ev.get("hang") or ev["signal"] or ev["exit"] not in (0, 1):
+            res.count("crash-left-to-C04")
+            continue
+        if "already exists" not in out and "reserved" not in out:
+            res.violation(["repl", "rebinding-not-rejected"], witness, {"output": out[-400:]})
+            continue
+        values = [l.strip() for l in out.split("\n") if re.match(r"^-?[0-9]+$", l.strip())]
+        if values != expect:
+            res.violation(["repl", "binding-changed-by-rejected-rebinding"], witness, {"values_printed": values, "expected": expect, "output": out[-400:]})
+        else:
+            res.count("repl-sessions-ok")
+    return res
+
+
 def task_scoping(args):
     seed, idx, count = args
     r = core.rng_for(seed, "c10s", idx)
@@ -296,7 +330,7 @@ def task_rebinding(args):
 
 def dispatch(task):
     kind, args = task
-    return {"prefix": task_prefix, "scoping": task_scoping, "reserved": task_reserved, "rebinding": task_rebinding}[kind](args)
+    return {"prefix": task_prefix, "scoping": task_scoping, "reserved": task_reserved, "rebinding": task_rebinding, "repl": task_repl}[kind](args)
 
 
 def run(tier, seed, t0):
@@ -307,6 +341,7 @@ def run(tier, seed, t0):
     ns = 64 if q else 2000
     tasks += [("scoping", (seed, i, max(1, ns // 16))) for i in range(16)]
     tasks += [("reserved", None), ("rebinding", None)]
+    tasks += [("repl", (seed, i, 6 if q else 40)) for i in range(8)]
     res = core.run_parallel(dispatch, tasks)
     return core.finish("C10", tier, seed, res, RULE, t0, replay_known=replay_known,
                        assumptions=["the reserved list is the one published in reference/_index.md",
@@ -318,7 +353,14 @@ def check_witness(w):
     res = core.Result()
     probe = core.Probe()
     try:
-        if "ast_repr" in w:
+        if "session" in w:
+            with core.TempProject("c10r") as tp:
+                ev = core.run_cli(["repl"], tp.root, stdin=("\n".join(w["session"]) + "\n").encode("utf-8"), timeout=30.0, merge=True)
+            values = [l.strip() for l in ev["stdout"].split("\n") if re.match(r"^-?[0-9]+$", l.strip())]
+            first = re.search(r"= (-?[0-9]+);", w["session"][0])
+            if first and values and any(v not in (first.group(1), str(int(first.group(1)) + 100)) for v in values):
+                res.violation(["repl", "binding-changed-by-rejected-rebinding"], w, {"values_printed": values})
+        elif "ast_repr" in w:
             import ast
             stmts = ast.literal_eval(w["ast_repr"])
             v, d, text = c01.judge_program(probe, stmts, fresh=True)
